@@ -710,4 +710,134 @@ Section R.
       - rewrite (IH lnw) by (cbn in Hll; lia). apply orb_true_r. }
     unfold logsumexp. now rewrite E.
   Qed.
+
+  (* ================= MultivariateNormal ================= *)
+  Fixpoint rdot (a b : list R) : R := match a, b with x :: a', y :: b' => x * y + rdot a' b' | _, _ => 0 end.
+  Lemma dot_R a b : dot O a b = rdot a b.
+  Proof.
+    unfold dot. rewrite sum_R. revert b. induction a as [|x a IH]; intros [|y b]; cbn; try reflexivity. now rewrite IH.
+  Qed.
+  Lemma rdot_nil_r r : rdot r [] = 0. Proof. now destruct r. Qed.
+  Lemma rdot_snoc r acc z : (length acc < length r)%nat -> rdot r (acc ++ [z]) = rdot r acc + nth (length acc) r 0 * z.
+  Proof.
+    revert r. induction acc as [|a acc IH]; intros [|x r] H; cbn in *; try lia; [rewrite rdot_nil_r; lra|]. rewrite IH by lia. lra.
+  Qed.
+  Lemma firstn_snoc_exact {X} (acc : list X) z rest : firstn (S (length acc)) (acc ++ z :: rest) = acc ++ [z].
+  Proof. induction acc as [|a acc IH]; cbn; [reflexivity|]. f_equal. exact IH. Qed.
+  (* forward substitution solves the lower-triangular system: row j dotted with the first j+1 entries of z is b_j *)
+  Lemma tri_solve_spec rs : forall b acc, length b = length rs ->
+    (forall j r, nth_error rs j = Some r -> (length acc + j < length r)%nat /\ nth (length acc + j) r 0 <> 0) ->
+    exists rest, tri_solve O rs b acc = acc ++ rest /\ length rest = length rs /\
+      forall j r bj, nth_error rs j = Some r -> nth_error b j = Some bj ->
+        rdot r (firstn (S (length acc + j)) (acc ++ rest)) = bj.
+  Proof.
+    induction rs as [|r rs IH]; intros b acc Hlen Hok.
+    - exists []. cbn. rewrite app_nil_r. repeat split; auto. intros [|j] ? ? H; discriminate.
+    - destruct b as [|bi bs]; [discriminate|]. cbn [tri_solve].
+      set (zi := n_div O (n_sub O bi (dot O r acc)) (nth (length acc) r (c O 0))).
+      destruct (IH bs (acc ++ [zi])) as (rest & E & Hl & Hsp).
+      + cbn in Hlen. lia.
+      + intros j r' Hr'. rewrite app_length. cbn [length]. replace (length acc + 1 + j)%nat with (length acc + S j)%nat by lia.
+        apply (Hok (S j) r'). exact Hr'.
+      + exists (zi :: rest). rewrite E, <- app_assoc. cbn [app]. split; [reflexivity|]. split; [cbn; lia|].
+        intros [|j] r0 bj Hr Hb; cbn in Hr, Hb.
+        * injection Hr as <-. injection Hb as <-. rewrite Nat.add_0_r, firstn_snoc_exact.
+          destruct (Hok 0%nat r eq_refl) as [Hlt Hnz]. rewrite Nat.add_0_r in Hlt, Hnz.
+          rewrite rdot_snoc by assumption. unfold zi. rewrite dot_R. cbn [n_div n_sub ROpsG]. change (c O 0) with 0. field. exact Hnz.
+        * specialize (Hsp j r0 bj Hr Hb). rewrite app_length in Hsp. cbn [length] in Hsp.
+          replace (length acc + 1 + j)%nat with (length acc + S j)%nat in Hsp by lia.
+          rewrite <- app_assoc in Hsp. exact Hsp.
+  Qed.
+
+  Definition tri_ok (rows : list (list R)) : Prop :=
+    forall j r, nth_error rows j = Some r -> (j < length r)%nat /\ 0 < nth j r 0.
+  Lemma diag_from_pos rows : forall i, (forall j r, nth_error rows j = Some r -> 0 < nth (i + j) r 0) ->
+    Forall (fun d => 0 < d) (diag_from O i rows).
+  Proof.
+    induction rows as [|r rows IH]; intros i H; cbn; constructor.
+    - change (c O 0) with 0. specialize (H 0%nat r eq_refl). now rewrite Nat.add_0_r in H.
+    - apply IH. intros j r' Hr'. replace (S i + j)%nat with (i + S j)%nat by lia. now apply (H (S j)).
+  Qed.
+  Lemma rsum_ln_abs l : Forall (fun d => 0 < d) l -> rsum (map (fun s => ln (Rabs s)) l) = rsum (map ln l).
+  Proof. induction 1 as [|d l Hd Hl IH]; cbn; [reflexivity|]. rewrite IH, Rabs_right by lra. reflexivity. Qed.
+  Lemma rsum_norm_terms z :
+    rsum (map (fun v => (ln (2 * PI * 1) + v * v / 1) / -2) z) = - (1 / 2) * rsum (map (fun v => v * v) z) - INR (length z) / 2 * ln (2 * PI).
+  Proof.
+    induction z as [|v z IH]; [cbn; lra|]. cbn [map rsum length]. rewrite IH, S_INR. replace (2 * PI * 1) with (2 * PI) by lra. lra.
+  Qed.
+  (* log_prob = -1/2 |z|^2 - sum ln L_ii - d/2 ln(2 pi)  where z solves  L z = x - mu  (lower triangle of L) *)
+  Lemma mvn_spec rows loc x : length loc = length rows -> length x = length rows -> tri_ok rows ->
+    let z := mvn_z O rows loc x in
+    length z = length rows /\
+    (forall j r bj, nth_error rows j = Some r -> nth_error (map2 (fun xi li => xi - li) x loc) j = Some bj ->
+       rdot r (firstn (S j) z) = bj) /\
+    mvn_log_prob O rows loc x =
+      Fin (- (1 / 2) * rsum (map (fun v => v * v) z) - rsum (map ln (diag_from O 0 rows)) - INR (length rows) / 2 * ln (2 * PI)).
+  Proof.
+    intros Hl Hx Hok z.
+    destruct (tri_solve_spec rows (map2 (fun xi li => n_sub O xi li) x loc) []) as (rest & E & Hlen & Hsp).
+    - rewrite map2_length; congruence.
+    - intros j r Hr. cbn [length Nat.add]. destruct (Hok j r Hr) as [H1 H2]. split; [assumption|lra].
+    - cbn [app] in E. assert (Ez : z = rest) by exact E. split; [congruence|]. split.
+      + intros j r bj Hr Hb. rewrite Ez. exact (Hsp j r bj Hr Hb).
+      + unfold mvn_log_prob, mvn_raw, std_lp. fold z.
+        assert (Em : map (fin O) z = map Fin z) by (apply map_ext; intros; apply fin_R). rewrite Em, map_map.
+        assert (En : map (fun v => norm_lp O (Fin v)) z = map Fin (map (fun v => (ln (2 * PI * 1) + v * v / 1) / -2) z)).
+        { rewrite map_map. apply map_ext. intros. apply norm_lp_R. }
+        rewrite En, e_sum_map_Fin, scale_ldj_R, e_add_Fin. cbn [nan_to_ninf]. f_equal.
+        rewrite rsum_norm_terms, rsum_ln_abs.
+        * replace (length z) with (length rows) by congruence. lra.
+        * apply diag_from_pos. intros j r Hr. cbn [Nat.add]. now apply Hok.
+  Qed.
+
+  (* ================= samplers: log_prob inverts the map the sampler pushes the primitive's draw through ================= *)
+  Lemma affine_roundtrip l s z : s <> 0 -> affine_inv1 O l s (Fin (affine_fwd1 O l s z)) = Fin z.
+  Proof. intros Hs. rewrite affine_inv1_R. unfold affine_fwd1. cbn [n_add n_mul ROpsG]. f_equal. field. exact Hs. Qed.
+  Lemma affine_sample_recovers locs scales zs : length locs = length zs -> length scales = length zs ->
+    Forall (fun s => s <> 0) scales ->
+    map3 (affine_inv1 O) locs scales (map Fin (map3 (affine_fwd1 O) locs scales zs)) = map Fin zs.
+  Proof.
+    intros H1 H2 Hs. revert locs zs H1 H2. induction Hs as [|s scales Hs0 Hs IH]; intros [|l locs] [|z zs] H1 H2; cbn [map3 map length] in *; try discriminate; try reflexivity.
+    rewrite affine_roundtrip by assumption. f_equal. apply IH; congruence.
+  Qed.
+  (* the location-scale classes: log-density at a sample = base log-density of the draw - sum ln|scale| *)
+  Definition plain_locscale (f : fam) : bool :=
+    match f with FNormal | FGumbel | FCauchy | FStudentT | FLaplace | FLogistic => true | _ => false end.
+  Lemma sample_density_locscale f dfs locs scales zs : plain_locscale f = true ->
+    length locs = length zs -> length scales = length zs -> Forall (fun s => s <> 0) scales ->
+    fam_raw O f locs scales dfs (map Fin (fam_sample O f locs scales zs)) = e_add O (std_lp O f dfs (map Fin zs)) (scale_ldj O scales).
+  Proof.
+    intros Hf H1 H2 Hs. destruct f; try discriminate; cbn [fam_raw fam_sample]; unfold locscale_raw;
+      now rewrite affine_sample_recovers.
+  Qed.
+  Lemma lognormal_sample_recovers locs scales zs : length locs = length zs -> length scales = length zs ->
+    Forall (fun s => s <> 0) scales ->
+    map3 (affine_inv1 O) locs scales (map (e_log O) (map Fin (fam_sample O FLogNormal locs scales zs))) = map Fin zs.
+  Proof.
+    intros H1 H2 Hs. cbn [fam_sample]. rewrite <- (affine_sample_recovers locs scales zs H1 H2 Hs). f_equal.
+    rewrite !map_map. apply map_ext. intros y. rewrite e_log_R. cbn [n_exp ROpsG].
+    replace (Rltb 0 (exp y)) with true by (symmetry; apply Rltb_true, exp_pos). now rewrite ln_exp.
+  Qed.
+  Lemma exponential_sample_recovers rates zs : length rates = length zs -> Forall (fun r => 0 < r) rates ->
+    map2 (scale_inv1 O) (exponential_scales O rates) (map Fin (fam_sample O FExponential rates [] zs)) = map Fin zs.
+  Proof.
+    intros H1 Hr. cbn [fam_sample]. unfold exponential_scales. revert zs H1.
+    induction Hr as [|r rates Hr0 Hr IH]; intros [|z zs] H1; cbn [map2 map length] in *; try discriminate; try reflexivity.
+    rewrite scale_inv1_R. rewrite IH by congruence. do 2 f_equal. cbn [n_mul n_div ROpsG]. rewrite cR. field. lra.
+  Qed.
+
+  (* ================= accessors return the constructor's values ================= *)
+  Lemma acc_maxval_R los his : length los = length his -> acc_maxval O los his = his.
+  Proof.
+    unfold acc_maxval, uniform_scales. revert his. induction los as [|lo los IH]; intros [|hi his] H; cbn in *; try discriminate; [reflexivity|].
+    rewrite IH by congruence. f_equal. lra.
+  Qed.
+  Lemma acc_rate_R rates : Forall (fun r => r <> 0) rates -> acc_rate O rates = rates.
+  Proof.
+    unfold acc_rate, exponential_scales. induction 1 as [|r rates Hr _ IH]; cbn; [reflexivity|]. cbn in IH. rewrite IH. f_equal. field. exact Hr.
+  Qed.
+  Lemma acc_loc_scale_R f p1 p2 : f <> FUniform -> acc_loc f p1 p2 = p1 /\ acc_scale O f p1 p2 = p2.
+  Proof. destruct f; intros H; try congruence; split; reflexivity. Qed.
+  Lemma acc_uniform_R los his : acc_minval los his = los /\ acc_scale O FUniform los his = map2 (fun lo hi => hi - lo) los his.
+  Proof. split; reflexivity. Qed.
 End R.
